@@ -1823,6 +1823,22 @@ func (b *Builder) Sweep() bool {
 	if len(cands) > 300 {
 		cands = cands[:300]
 	}
+	// an honest block stays well inside the block weight limit: revealed unlock conditions dominate an input's size
+	// (a 70-key multisig input weighs about 4 KB), so the sweep takes as many candidates as fit into a quarter of it
+	budget := int(b.CS.MaxBlockWeight() / 4)
+	for i, c := range cands {
+		size := 400
+		if c.lock.UC != nil {
+			size += 60*len(c.lock.UC.PublicKeys) + 200*int(min(c.lock.UC.SignaturesRequired, 70))
+		}
+		if budget -= size; budget < 0 {
+			cands = cands[:i]
+			break
+		}
+	}
+	if len(cands) < 8 {
+		return false
+	}
 	total := new(big.Int)
 	for _, c := range cands {
 		b.usedSC[c.el.ID] = true
